@@ -120,13 +120,26 @@ class FixedGrid(Grid):
         if self.localize_T:
             Tk = T_local[k]
             if k>=0 and k+1<N:
-                r = self.constrain_T(T_local[k], T_local[k+1], N)
+                r = self.constrain_T_at(T_local[k], T_local[k+1], N, k)
                 if r is not None:
                     yield r
         else:
             Tk = T*(self.normalized(N)[k+1]-self.normalized(N)[k])
         if self.localize_t0 and k>=0:
             yield (t0_local[k]+Tk==t0_local[k+1],{})
+
+    def constrain_T_at(self, T, Tnext, N, k):
+        """Relation between the lengths of control intervals k and k+1"""
+        if hasattr(self, 'constrain_T'):
+            return self.constrain_T(T, Tnext, N)
+        # Grids given by their normalized points only: consecutive intervals keep the ratio of the normalized grid
+        n = self.normalized(N)
+        return (Tnext*(n[k+1]-n[k])==T*(n[k+2]-n[k+1]),{})
+
+    def scale_first(self, N):
+        """Length of the first control interval, as a fraction of the horizon"""
+        n = self.normalized(N)
+        return n[1]-n[0]
 
     def bounds_each(self, k, T, N):
         """min/max bounds on the length of control interval k, for grids whose intervals have no common pattern"""
